@@ -237,10 +237,21 @@ def run_controlled(sc, mode, points=None, runtime=None, misuse=False):
         tr = T.Trace(sc, sim, env)
         T.wrap_algorithm(tr, sim.scheduler.algorithm)
         tr.snaps[0] = tr.snapshot()
+        tr.track_task_state = True
         T.CURRENT = tr
 
         def state():
             return (env.now, env.seq, len(sim.monitor.df), len(sim.monitor.events), len(tr.allocs), sim.running)
+
+        def at_pause(how):
+            # "the same state trajectory": when start(runtime=k) / resume(until=k) returns, nothing due at k has happened yet, so
+            # what the caller can read off the task objects is what held before the first event of step k
+            b = getattr(tr, 'boundary_task_state', None)
+            if b is not None and b[0] == env.now:
+                now = tr.task_state()
+                if now != b[1]:
+                    diff = [(x, y) for x, y in zip(b[1], now) if x != y][:2]
+                    notes.append(O.V('C11', 'state_at_pause_differs', f"{how} returned at {env.now} with task state ahead of the trajectory: {diff}"))
         try:
             with quiet():
                 if misuse:
@@ -258,6 +269,7 @@ def run_controlled(sc, mode, points=None, runtime=None, misuse=False):
                     sim.start(runtime=runtime)
                 else:
                     sim.start(runtime=points[0])
+                    at_pause(f"start(runtime={points[0]})")
                     for i, until in enumerate(points[1:]):
                         if misuse and i == 0:
                             s1 = state()
@@ -269,6 +281,7 @@ def run_controlled(sc, mode, points=None, runtime=None, misuse=False):
                             if state() != s1:
                                 notes.append(O.V('C11', 'second_start_changed_state', f"refused second start() changed state {s1} -> {state()}"))
                         sim.resume(until=until)
+                        at_pause(f"resume(until={until})")
                 if misuse and mode != 'paused':
                     s1 = state()
                     try:
@@ -327,7 +340,7 @@ class C11:
             "point lies strictly inside an ingest or a workflow (an allocation is active in the shadow model at step k); distinct = "
             "distinct canonical (scenario, pause points, tail) JSON")
     level_text = ("exploration: per-timestep table (minus *-algtime), task table, event log, end clock and the shadow model's per-step "
-                  "snapshots must be identical between the paused/resumed run and the uninterrupted reference; misuse must raise "
+                  "snapshots must be identical between the paused/resumed run and the uninterrupted reference; when start(runtime=k) / resume(until=k) returns, the task objects must show the state that held before the first event of step k; misuse must raise "
                   "RuntimeError and leave clock, tables and processed-event count unchanged")
     assumptions = SimSpec.assumptions
 
